@@ -102,6 +102,9 @@ class ConnProp(Prop):
                 if e.get("k") == "commit" and e.get("ok") and any(not w.get("ok") for w in e.get("ws") or []):
                     d["s1_shape"] += 1
             d["restarts"] += len((c.get("observed") or {}).get("restarts") or [])
+            for o in (c.get("observed") or {}).get("full") or []:
+                k = "full_restart_%s_stored%s_%s" % (o.get("engine"), o.get("stored"), "started" if o.get("started") else "not_started")
+                d[k] = d.get(k, 0) + 1
             faulty = any(e.get("k") in ("txfail", "sendfail") or
                          (e.get("k") == "commit" and (not e.get("ok") or any(not w.get("ok") for w in e.get("ws") or [])))
                          for e in _log(c))
